@@ -598,7 +598,16 @@ func runC11(c *RunCtx) {
 	// while the bytes arrive (k grows) - empty at first, or holding this very message or a close
 	// relative of it from an earlier delivery
 	var held any
-	switch t.Intn(4) {
+	switch t.Intn(5) {
+	case 4:
+		// ... holding another message of the type (other discriminator key, hence possibly another,
+		// shorter body or extension type)
+		if other, ok := genSent(c, g, name); ok {
+			held = newValue(name)
+			if rr := tryDecode(held, bytes.NewBuffer(cloneBytes(other.w))); rr.Err != nil || rr.Panic != nil {
+				held = nil
+			}
+		}
 	case 1:
 		held = newValue(name)
 	case 2:
@@ -1543,9 +1552,12 @@ func runC16(c *RunCtx) {
 		return
 	}
 	// ---- encode side
-	slack := []int{4096, 0, 1, 64}[t.Intn(4)]
-	arr := make([]byte, 0, len(s.w)+slack)
+	slack := []int{4096, 0, 1, 64, -1}[t.Intn(5)]
+	arr := make([]byte, 0, len(s.w)+max(slack, 0))
 	buf := bytes.NewBuffer(arr)
+	if slack < 0 {
+		buf = &bytes.Buffer{} // a zero-value buffer: no storage of its own yet
+	}
 	m := Clone(s.pre)
 	if r := tryEncode(m, buf); r.Panic != nil || r.Err != nil {
 		c.Probe("skip.encode-failed")
@@ -1562,7 +1574,14 @@ func runC16(c *RunCtx) {
 		c.Fail("C16/bytes-alias-message", name, "after mutating the %s that was encoded, the bytes already written changed (first difference at %d) — the buffer shares memory with the message", name, firstDiff(buf.Bytes(), snap))
 		return
 	}
-	if other, ok := genSent(c, g, pickType(t, 5)); ok {
+	oname := pickType(t, 5)
+	if t.Intn(2) == 0 {
+		oname = name
+	}
+	if other, ok := genSent(c, g, oname); ok {
+		if t.Intn(2) == 0 {
+			tryEncode(Clone(other.pre), &bytes.Buffer{}) // ... into another buffer first
+		}
 		tryEncode(Clone(other.pre), buf)
 		c.Oracle("bytes-survive-next-encode")
 		b := buf.Bytes()
